@@ -497,6 +497,10 @@ class VEx:
         return ty_str(self.b.local_ty(l))
 
 
+_OPTION_COPIES = ("core::option::Option::<&T>::copied", "core::option::Option::<&T>::cloned",
+                  "core::option::Option::<&mut T>::copied", "core::option::Option::<&mut T>::cloned")
+
+
 def norm_try(e):
     """`Try::branch(r).@Continue.0.rest`  ==>  `r.@Ok.0.rest` (the `?` operator)."""
     if not isinstance(e, tuple) or not e:
@@ -514,6 +518,9 @@ def norm_try(e):
         if inner[0] == "proj":
             return ("proj", inner[1], tuple(inner[2]) + tuple(f))
         return ("proj", inner, f)
+    if k == "call" and e[1] in _OPTION_COPIES and len(e[2]) == 1:
+        # `opt.copied()` / `opt.cloned()` of an Option<&T> (T: Copy): the same option - same variant, same payload
+        return norm_try(e[2][0])
     if k in ("call",):
         return (k, e[1], tuple(norm_try(a) for a in e[2])) + tuple(e[3:])
     if k == "agg":
@@ -1863,6 +1870,19 @@ def ok_when_len_ge(body_id, crates, depth=0, memo=None):
             e = vx.operand(t["args"][0], i)
             calls = [x for x in walk(e) if x[0] == "call" and x[1] != "core::ops::try_trait::Try::branch"]
             src = None
+            # `s.split_first_chunk::<N>().ok_or(e)?` / `s.first_chunk::<N>().ok_or(e)?` on the whole parameter slice: None
+            # (hence the `?` exit) exactly when len(s) < N
+            chunk = [x for x in calls if x[1] in ("core::slice::<impl [T]>::split_first_chunk", "core::slice::<impl [T]>::first_chunk")]
+            wraps = [x for x in calls if x[1] in ("core::option::Option::<T>::ok_or", "core::option::Option::<T>::ok_or_else")]
+            if len(chunk) == 1 and len(wraps) == 1 and strip_ref(wraps[0][2][0]) == chunk[0] and \
+                    len([x for x in calls if x not in chunk and x not in wraps and x[1] not in _PURE_ANYWHERE]) == 0:
+                a0 = strip_ref(chunk[0][2][0])
+                ga = (body.blocks[chunk[0][3]]["term"].get("f") or {}).get("a") or []
+                n_ = ga[1].get("v") if len(ga) > 1 and ga[1].get("k") == "const" else None
+                if a0[0] == "path" and a0[1] == vx.root_name(1) and not a0[2] and isinstance(n_, int):
+                    K = max(K, n_)
+                    continue
+                return None
             for x in calls:
                 if x[1] in CONTRACTED or x[1] == "core::result::Result::<T, E>::map_err":
                     src = x
